@@ -139,6 +139,43 @@ def run(chk):
         return True, "", [c.loc for c in tails] + [c.loc for c in ie]
     chk.ob("C16.R1b:leftover-parts", "parts left over after the common prefix: a hole or non-empty text makes the templates unequal", leftovers)
 
+    def true_only_after_comparison():
+        """`eq` answers `true` only after the whole comparison: every `true` it returns lies behind the exhaustion of the left-over loop (which
+        itself lies behind the lock-step loop).  The one sound shortcut is identity of the two part slices - same address *and* same length
+        (`ptr::eq` on the slices, or `as_ptr()` equal and `len()` equal); the same first element alone does not make a prefix equal to the whole."""
+        trues = [bb for bb, j, st in eqb.statements(normal_only=True) if st["k"] == "assign" and st["place"]["l"] == 0 and "p" not in st["place"]
+                 and st["rv"]["k"] == "use" and mir.o_const_value(eqb.origin(st["rv"]["op"])) is True]
+        nx = [c for c in eqb.calls(normal_only=True) if c.callee.get("name") == "next" and eqb.in_cycle(c.bb)]
+        if not trues or not nx:
+            raise mir.AnchorMissing("`true` results / the left-over loop of Template::eq (%d, %d)" % (len(trues), len(nx)))
+        for tb in trues:
+            if any(eqb.dominates(c.bb, tb) for c in nx):
+                continue
+            ptr_eq = len_eq = fat_eq = False
+            for gbb, vals, n in eqb.guards_of(tb):
+                so, pos = mir.norm_bool(eqb.switch_origin(gbb))
+                taken_true = (list(vals) != ["0"]) == pos
+                if not taken_true:
+                    continue
+                if so[0] == "binop" and so[1] == "Eq":
+                    sides = []
+                    for x in (so[2], so[3]):
+                        while x[0] in ("cast", "copy", "ref", "deref"):
+                            x = x[1]
+                        sides.append(x)
+                    if all(x[0] == "call" and x[1].callee.get("name") == "as_ptr" for x in sides):
+                        ptr_eq = True
+                    if all((x[0] == "call" and x[1].callee.get("name") == "len") or x[0] in ("len", "ptrmeta") or (x[0] == "unop" and x[1] == "PtrMetadata") for x in sides):
+                        len_eq = True
+                if so[0] == "call" and (so[1].callee.get("path") or "") in ("core::ptr::eq", "core::ptr::addr_eq") and "[" in " ".join(so[1].callee.get("generics") or []):
+                    fat_eq = so[1].callee.get("path") == "core::ptr::eq"
+            if not (fat_eq or (ptr_eq and len_eq)):
+                return False, ("Template::eq returns `true` at bb%d without having gone through the comparison of the parts (and not under an identity "
+                               "test of both address and length of the part slices): templates that merely share their first part - a prefix of the "
+                               "same buffer - compare equal" % tb), [], eqb.span
+        return True, "", [c.loc for c in nx]
+    chk.ob("C16.R1d:true-only-after-comparison", "eq returns true only behind the complete comparison (or an identity test of address and length)", true_only_after_comparison)
+
     def cursors():
         eqb = P.body(EQ)
         ok, detail, sites = panics.cursor_pairing(eqb)
